@@ -32,6 +32,11 @@ def main():
     ms = exact.catalogue(rng, Ms=(1, 2, 3) if not thorough else (1, 2, 3, 4), per_M=6 if not thorough else 12)
     for k in range(6 if not thorough else 40):
         ms.append(exact.random_model(rng, "R%d" % k, rng.choice([2, 3] if not thorough else [2, 3, 4])))
+    # wide spectra (bandwidth of order 100): at small beta every level still carries weight, at large beta all but the ground state underflow
+    ms.append(exact.make_model("W1", 2, [-40, 35], [(0, 1, 90)], rot=[[0, 1]]))
+    ms.append(exact.make_model("W2", 3, [50, -45, 10], [(0, 1, -80), (1, 2, 60)], bog=[[0, 2]]))
+    if thorough:
+        ms.append(exact.make_model("W3", 3, [-300, 200, 40], [(0, 1, 500), (0, 2, -100)], rot=[[1, 2]]))
     ms += exact.with_phases(rng, ms)[: (5 if not thorough else 30)]
     for m in ms:
         M = m["M"]
